@@ -5,7 +5,7 @@ import z3
 from vfw import sym, theory
 from vfw.sym import SV, SB, ctx
 from vfw.engine import Contract
-from vfw.models import frames, misc
+from vfw.models import kernels, frames, misc
 from . import common
 from .common import MOTL_COLS, zr
 
@@ -181,11 +181,119 @@ class CreateRelionDf(Contract):
         return r.replay_export(model, cfg["version"], clause)
 
 
-CONTRACTS = [AnglesToRelion, AnglesFromRelion, ConvertShifts, CreateRelionDf]
+class HalfsetSpec(kernels.InvSpec):
+    """invariant of the half-set renumbering loop of RelionMotl.parse_subtomo_id after positions 0..k have been numbered"""
+    state = {"subtomo_id_num": "Bool"}
+    scalars = {"c": "Int"}
+    ghosts = {"ids": "Int"}   # ids[p]: the number given to the particle at position p
+    label = "halfsets"
+
+    def __init__(self, hs, n, first):
+        self.hs, self.n, self.first = hs, n, first
+
+    def ghost_init_from(self, S_init, objs):
+        return {"ids": (lambda i, c0=S_init["c"]: c0)}
+
+    def inv(self, k, S, G):
+        ids, log, c, hs = G["ids"], S["subtomo_id_num"], S["c"], self.hs
+        p, q = z3.Ints("p!hs q!hs")
+        filled = lambda x: z3.And(x >= 0, x <= k)
+        return [
+            ("positions_0_to_k_are_filled", z3.ForAll([p], z3.Implies(z3.And(p >= 0, p < self.n), log(p) == (p <= k)))),
+            ("counter_is_the_last_number_given", c == ids(k)),
+            ("numbers_are_positive_and_their_parity_is_the_half_set", z3.ForAll([p], z3.Implies(filled(p), z3.And(ids(p) >= 1, ids(p) % 2 == hs(p))))),
+            ("numbers_increase_strictly", z3.ForAll([p, q], z3.Implies(z3.And(filled(p), filled(q), p < q), ids(p) < ids(q)))),
+        ]
+
+    def ghost_step(self, k, S0, S1, G0):
+        return {"ids": (lambda i, f=G0["ids"], c1=S1["c"]: z3.If(i == k + 1, c1, f(i)))}
+
+
+class HalfsetRenumbering(Contract):
+    """RelionMotl.parse_subtomo_id, the block that renumbers the particles when two half-sets are present: particle p gets a number whose parity
+    is its half-set (rlnRandomSubset 1 -> odd, 2 -> even), numbers are positive and strictly increasing (hence pairwise different), and exactly
+    these numbers are stored as subtomo_id"""
+    prop = "C03"
+    module = "cryomotl"
+    qual = "RelionMotl.parse_subtomo_id"
+
+    def cfg_name(self, cfg):
+        return "block=half-set renumbering"
+
+    def bind(self, cx, cfg):
+        n = SV(z3.Int("n_particles"))
+        cx.assume(n.t >= 1)
+        RS = z3.Function("rlnRandomSubset", z3.IntSort(), z3.IntSort())
+        i = z3.Int("i!rs")
+        cx.assume(z3.ForAll([i], z3.Or(RS(i) == 1, RS(i) == 2)))
+        hs_fn = lambda x: RS(x) % 2
+        hs = kernels.FnArr(lambda x: RS(x) % 2, n, "Int", "halfset_num")
+        rec = {}
+
+        class Col:
+            @property
+            def values(self):
+                return self
+
+            def __mod__(self, k):
+                if k != 2:
+                    raise sym.Unsupported("random subset modulo something else than 2")
+                return hs
+
+        class Rel:
+            def __getitem__(self, c):
+                if c != "rlnRandomSubset":
+                    raise sym.Unsupported("relion table column")
+                return Col()
+
+        class Df:
+            shape = (n, 20)
+
+            def __setitem__(self, c, v):
+                rec.setdefault("assigned", []).append((c, v))
+
+        class Me:
+            df = Df()
+        cx.range_inv_spec_factory = lambda rng, env: HalfsetSpec(hs_fn, n.t, None)
+        it = common.motl_interp()
+        f = it.block_function("RelionMotl.parse_subtomo_id", lambda s: s.startswith("halfset_num = "), lambda s: s.startswith("self.df['subtomo_id'] = subtomo_id_num"),
+                              ["self", "relion_df"], ["subtomo_id_num"])
+
+        def thunk():
+            rec.clear()
+            out = f(Me(), Rel())
+            return {"log": out[0], "assigned": rec.get("assigned", [])}
+        return thunk, {"n": n, "hs": hs_fn, "lines": it.block_lines}
+
+    def post(self, cx, cfg, inp, res):
+        n, hs = inp["n"].t, inp["hs"]
+        log = res["log"]
+        ok = isinstance(log, kernels.AppendLog) and res["assigned"] == [("subtomo_id", log)]
+        cl = [("the_numbers_are_stored_as_subtomo_id", z3.BoolVal(bool(ok)))]
+        ex = getattr(cx, "loop_exit", {}).get("halfsets")
+        if not ok or ex is None:
+            return cl + [("renumbering_loop_verified_by_invariant", z3.BoolVal(False))]
+        ids, c_exit = ex["G"]["ids"], ex["S"]["c"]
+        p, q = z3.Ints("p!h q!h")
+        rng = lambda x: z3.And(x >= 0, x < n)
+        # what was appended: the initial element and, in the arbitrary iteration, the updated counter
+        app_ok = len(log.initial) == 1 and all(isinstance(v, SV) for _, v, _ in log.values) and len(log.values) == 1
+        cl += [("one_number_per_particle_in_order", z3.BoolVal(bool(app_ok))),
+               ("every_position_gets_a_number", z3.ForAll([p], z3.Implies(rng(p), ex["S"]["subtomo_id_num"](p))), ()),
+               ("number_parity_is_the_particles_half_set", z3.ForAll([p], z3.Implies(rng(p), z3.And(ids(p) >= 1, ids(p) % 2 == hs(p)))), ()),
+               ("numbers_pairwise_different", z3.ForAll([p, q], z3.Implies(z3.And(rng(p), rng(q), p != q), ids(p) != ids(q))), ())]
+        return cl
+
+    def replay(self, clause, model, cfg):
+        from rtc import c03 as r
+        return r.replay_kind("import")
+
+
+CONTRACTS = [AnglesToRelion, AnglesFromRelion, ConvertShifts, CreateRelionDf, HalfsetRenumbering]
 LEVEL = "proof"
 EXPLANATION = ("Angle conversion in both directions (for all angles incl. gimbal lock, via from_euler o as_euler = id only), shift conversion per version, and the "
                "export table of create_relion_df (coordinates = x+shift (x binning for v>=4), zero origins, class, half-set parity, numeric names) are postconditions proved on "
-               "the generic row of the real AST; round trip as a lemma. Name formats / regex parsing / half-set renumbering loop / STAR file path: bounded stand-in only.")
+               "the generic row of the real AST; round trip as a lemma; the half-set renumbering block of parse_subtomo_id on import (extracted mechanically; loop by inductive invariant with a carried counter): every particle gets a positive number whose parity is its half-set, numbers strictly increasing. Name formats / regex parsing / STAR file path: bounded stand-in only.")
 ASSUMPTIONS = ["RELION's (rot,tilt,psi) denote Rz(rot)Ry(tilt)Rz(psi) (intrinsic ZYZ); cryoCAT's (phi,theta,psi) denote Rz(psi)Rx(theta)Rz(phi); the property demands the former to be the inverse of the latter",
                "scipy Rotation contract (vfw/models/rot.py); pandas contract for column assignment; an empty DataFrame takes the index of the first Series assigned to it",
                "requires: the particle table has a RangeIndex (established by Motl.check_df_type on every public construction path); subtomo_id and tomo_id are integers"]
